@@ -865,3 +865,13 @@ M("c07-locks-written-over-projection", "C07", "cola/libcola/colafd.cpp",
 M("c07-cursor-not-rewound-for-combined", "C07", "cola/libcola/colafd.cpp",
   "        cc->markAllSubConstraintsAsInactive();\n        bool subConstraintSatisfiable = true;\n", "        bool subConstraintSatisfiable = true;\n        if (!cc->shouldCombineSubConstraints()) cc->markAllSubConstraintsAsInactive();\n",
   mention=["MAKEFEASIBLE-PROTOCOL", "cursor"])
+
+# ---------------------------------------------------------------- C12 round d
+M("c12-improver-lists-kept-when-options-off", "C12", "cola/libavoid/router.cpp",
+  "    m_hyperedge_improver.clear();\n    if (withMinorImprovements || withMajorImprovements)\n    {\n", "    if (withMinorImprovements || withMajorImprovements)\n    {\n        m_hyperedge_improver.clear();\n",
+  mention=["IMPROVER-LISTS-FRESH"])
+M("c12-hyperedge-collected-per-registration", "C12", "cola/libavoid/hyperedge.cpp",
+  "            if (alreadyRegistered)\n            {\n                continue;\n            }\n", "", mention=["REGISTERED-ONCE", "twice"])
+M("c12-fixed-junction-keeps-old-recommendation", "C12", "cola/libavoid/junction.cpp",
+  "void JunctionRef::setRecommendedPosition(const Point& position)\n{\n", "void JunctionRef::setRecommendedPosition(const Point& position)\n{\n    if (m_position_fixed) return;\n",
+  mention=["JUNCTION-POSITION-WRITTEN"])
